@@ -1165,6 +1165,11 @@ def rule_cachemisc(text):
         (r"for\s+_\s+in\s+0\s*\.\.\s*(\w+)\s*\{", r"let mut pass_i_: usize = 0; while pass_i_ < \1 { pass_i_ = pass_i_ + 1;", "R-foriter", "definition of a counted loop (Verus for-loops have no `break`)"),
         (r"(\w+)\s*\.\s*wrapping_add\s*\(\s*1\s*\)", r"wrapping_inc(\1)", "R-wrap", "definition of usize::wrapping_add(1)"),
         (r"self\s*\.\s*stats\s*\.\s*as_ref\s*\(\s*\)", "&self.stats", "R-handle", "Arc<Statistics>::as_ref() is a reference to the statistics"),
+        (r"#\[cfg\(test\)\]\s*crate\s*::\s*test_hooks\s*::\s*pause_at\s*\([^;]*\)\s*;", "", "R-cfg", "dropped: a test-only pause point (not compiled outside tests)"),
+        (r"for\s+(\w+)\s+in\s+&\s*self\s*\.\s*(\w+)\s*\{", r"let mut \1_i_: usize = 0; while \1_i_ < self.\2.len() { let \1 = &self.\2[\1_i_]; \1_i_ = \1_i_ + 1;", "R-foriter",
+         "definition of iterating a Vec field by reference as an index loop"),
+        (r"(\w+)\s*\.\s*iter\s*\(\s*\)\s*\.\s*map\s*\(\s*\|\s*(\w+)\s*\|\s*\2\s*\.\s*size\s*\)\s*\.\s*sum\s*(?:::\s*<\s*usize\s*>\s*)?\(\s*\)", r"sum_entry_sizes(&\1)", "R-sum",
+         "shim: the summed sizes of the entries (spec total_size); the sum is assumed not to overflow usize"),
     ]
     for pat, rep, rname, why in table:
         while True:
